@@ -267,7 +267,37 @@ def check_iterators(chk, m, L, N, I):
                 chk.ob("N5.contains-miss", "list_contains %s..ret false" % s.lstrip("%"), end,
                        "false is returned only at the end of the list", p.ret_inst.loc, fn.name)
     fn = m.fn("list_remove")
-    for s, p in runs_of(m, fn):
+    self_walking = not any(e.kind == "call" and e.callee == "list_contains" for s, p in runs_of(m, fn) for e in p.events)
+    if self_walking:
+        # search and unlink in one walk over the links: true is returned exactly on a segment that found the node in the slot it
+        # unlinks (N1 / N3 check the unlink itself), false only at the end of the list and without touching anything
+        n_ret = 0
+        for s, p in runs_of(m, fn):
+            if p.end != "ret" or p.ret is None or p.ret[0] != "c":
+                continue
+            n_ret += 1
+            sid = "list_remove %s..ret %s" % (s.lstrip("%"), bool(p.ret[2]))
+            stores = [e for e in p.events if e.kind == "store"]
+            if p.ret[2]:
+                unl = None
+                for e in stores:
+                    v = strip_casts(e.val)
+                    if v[0] == "ld" and ptr_parts(v[1])[1] == next_o:
+                        victim = ptr_parts(v[1])[0]
+                        found = any(strip_casts(c)[0] == "icmp" and strip_casts(c)[1] in ("eq", "ne") and
+                                    {strip_casts(strip_casts(c)[2]), strip_casts(strip_casts(c)[3])} >= {("arg", 1)} and
+                                    victim in (strip_casts(strip_casts(c)[2]), strip_casts(strip_casts(c)[3]), ("arg", 1)) and
+                                    (strip_casts(c)[1] == "eq") == bool(t) for c, t, i in p.conds)
+                        slot_holds = strip_casts(e.ptr) != victim
+                        if found or victim == ("arg", 1):
+                            unl = e
+                chk.ob("N5.remove-through-found-position", sid, unl is not None,
+                       "true is returned on the segment that unlinks the slot found to hold the node", p.ret_inst.loc, fn.name)
+            else:
+                chk.ob("N5.remove-through-found-position", sid, not stores, "false is returned without modifying the list",
+                       p.ret_inst.loc, fn.name)
+        chk.expect("N5", "returning segments of list_remove", n_ret, 2)
+    for s, p in (runs_of(m, fn) if not self_walking else []):
         calls = [e for e in p.events if e.kind == "call"]
         ct = [e for e in calls if e.callee == "list_contains"]
         rm = [e for e in calls if e.callee == "list_iterator_remove"]
